@@ -150,21 +150,29 @@ def run(ctx):
     for _ in range(100):
         model_case(ctx, rng)
     reader_case(ctx)
+    jobs = []
     for k in range(2 if ctx.quick else 12):
-        double = k % 2 == 1
-        c = fibre.make_case(rng, double=double, nx=rng.randint(8, 10) if ctx.quick else rng.randint(8, 14), nt=rng.randint(2, 3), n_baths=2, n_stretch=3,
-                            nta=rng.choice([0, 1]), n_match=rng.choice([0, 1]), noise=0.004, var_kind=rng.choice(["float", "dataarray", "callable"]))
-        combos = [(c.nx, c.nt), (max(1, c.nx // 2), 1), (3, c.nt), (c.nx, 1)]
-        if k == 0 or not ctx.quick:
-            combos += [(1, 1), (1, c.nt)]
-        if not ctx.quick:
-            combos += [(rng.randint(1, c.nx), rng.randint(1, c.nt)) for _ in range(6)]
-        base, _ = calib.run_real(c)
-        for i, (cx, ct) in enumerate(combos):
-            if i % 2 == 0:
-                chunk_case(ctx, c, cx, ct, "synchronous", 1, base=base, estimators=(i == 2))
-            else:
-                chunk_case(ctx, c, cx, ct, "threads", [1, 2, 4, 8, 16][(i + k) % 5], base=base, estimators=(i == 1))
+        jobs.append((k, rng.randrange(2**31)))
+    core.parallel_cases(ctx, input_cases, jobs, jobs=8)
+
+
+def input_cases(ctx, k, seed):
+    import random
+    rng = random.Random(seed)
+    double = k % 2 == 1
+    c = fibre.make_case(rng, double=double, nx=rng.randint(8, 10) if ctx.quick else rng.randint(8, 14), nt=rng.randint(2, 3), n_baths=2, n_stretch=3,
+                        nta=rng.choice([0, 1]), n_match=rng.choice([0, 1]), noise=0.004, var_kind=rng.choice(["float", "dataarray", "callable"]))
+    combos = [(c.nx, c.nt), (max(1, c.nx // 2), 1), (3, c.nt), (c.nx, 1)]
+    if k == 0 or not ctx.quick:
+        combos += [(1, 1), (1, c.nt)]
+    if not ctx.quick:
+        combos += [(rng.randint(1, c.nx), rng.randint(1, c.nt)) for _ in range(6)]
+    base, _ = calib.run_real(c)
+    for i, (cx, ct) in enumerate(combos):
+        if i % 2 == 0:
+            chunk_case(ctx, c, cx, ct, "synchronous", 1, base=base, estimators=(i == 2))
+        else:
+            chunk_case(ctx, c, cx, ct, "threads", [1, 2, 4, 8, 16][(i + k) % 5], base=base, estimators=(i == 1))
 
 
 def search(ctx):
